@@ -941,6 +941,46 @@ def mutants(rng, src, n):
     return res
 
 
+# ---- invalid sources, enumerated ---------------------------------------------------------
+
+MUT_BASE = ['syntax = "v1"\n',
+            'info (\n\ttitle: "t"\n\tdesc: `d`\n)\n',
+            'import "a.api"\nimport (\n\t"b.api"\n)\n',
+            'type T {\n\tA, B int `json:"a"` // c\n\tFoo\n\t*Bar\n\tM map[string][]*T\n\tN [2]any\n}\n',
+            'type (\n\tU = interface{}\n\tV {\n\t\tW {\n\t\t\tX [...]int\n\t\t}\n\t}\n)\n',
+            '@server (\n\tprefix: /api/v1\n\ttimeout: 1h30m\n\tjwt: Auth\n\tmw: A,B\n\tn: 10\n)\nservice s-api {\n}\n',
+            'service s {\n\t@doc "d"\n\t@handler h\n\tget /a/:id/b-c (Req) returns ([]*Resp);\n\t/* k */\n\t@doc (\n\t\tx: "y"\n\t)\n\t@handler g\n\tpost /\n}\n']
+# one character of every lexical class of scanner.go
+MUT_CHARS = ['"', "`", "@", "/", "*", "(", ")", "{", "}", "[", ":", ",", ".", "-", "=", ";", "a", "1", "s", " ", "\n", "#", "\x00", "µ"]
+
+
+def char_mutations(part=None, parts=1):
+    """per-position single-character mutations of a small corpus that uses every construct: at every
+    position of every program the character is deleted, replaced by and preceded by one character of
+    every lexical class.  Each mutant is a CASE of its own (not only "no crash"): the model scanner
+    must read the same tokens / report an error where scanner.go does, the model parser must reject
+    it iff goctl's parser does, and an invalid one must be an error of the parser, of format.Source
+    and of format.File.  part/parts: the k-th of n slices (quick tier); all of them otherwise."""
+    res = []
+    for p in MUT_BASE:
+        for i in range(len(p)):
+            res.append(p[:i] + p[i + 1:])
+            for c in MUT_CHARS:
+                if c != p[i]:
+                    res.append(p[:i] + c + p[i + 1:])
+                res.append(p[:i] + c + p[i:])
+        res += [p + c for c in MUT_CHARS]
+    seen = set(MUT_BASE)
+    out = []
+    for x in res:
+        if x not in seen and x.strip("\x00 \t\r\n") and x[0] != "\x00":
+            seen.add(x)
+            out.append(x)
+    if part is not None:
+        out = out[part % parts::parts]
+    return out
+
+
 def multi_file_set(rng):
     """a set of .api files importing one another that goctl's analyzer accepts (declared types only,
     one service name, unique handlers and routes), in a random odd layout with comments on lines of
